@@ -14,3 +14,8 @@ import LexVerif.Model.Ops.WriteInt
 import LexVerif.Model.Iter
 import LexVerif.Model.ParseNumber
 import LexVerif.Model.Ops.ParseFloat
+-- float-writer digit generators and power-of-two writers (dbox)
+import LexVerif.Model.Dragonbox
+import LexVerif.Model.Grisu
+import LexVerif.Model.WriteBinary
+import LexVerif.Model.Ops.WriteAlgos
